@@ -219,10 +219,26 @@ func execConc(st *State, a []string) string {
 	}
 	// per-goroutine op lists, generated up front from the seed
 	scripts := make([][]string, n)
+	appendOnly := strings.HasSuffix(mode, "+app")
+	mode = strings.TrimSuffix(mode, "+app")
 	for i := 0; i < n; i++ {
 		var buf bytes.Buffer
 		w := bufio.NewWriter(&buf)
-		genHistoryFrom(NewGen(seed*1000+uint64(i)), w, t, cloneVal(v), histOpts{steps: 12, copies: true, obsEvery: false})
+		gi := NewGen(seed*1000 + uint64(i))
+		if appendOnly && (t.Kind == KList || t.Kind == KBitlist) {
+			// every fork appends across several power-of-two boundaries at the same time: zero
+			// padding is expanded concurrently at depths nobody has expanded before
+			et := elemTy(t, 0)
+			for k := 0; k < 70; k++ {
+				fmt.Fprintf(w, "app r %s\n", gi.RandVal(et, 3))
+				if k%9 == 8 {
+					fmt.Fprintln(w, "appd r")
+				}
+			}
+			fmt.Fprintln(w, "obs r")
+		} else {
+			genHistoryFrom(gi, w, t, cloneVal(v), histOpts{steps: 12, copies: true, obsEvery: false})
+		}
 		w.Flush()
 		scripts[i] = strings.Split(strings.TrimSpace(buf.String()), "\n")
 	}
@@ -286,6 +302,20 @@ func execConc(st *State, a []string) string {
 }
 
 func genC14(g *Gen, tier string, w *bufio.Writer) {
+	// first: concurrent appends into collapsed zero padding (first expansion of each depth in
+	// this process happens inside the goroutines)
+	u64 := &Ty{Kind: KUint, N: 8}
+	for _, lt := range []*Ty{
+		{Kind: KList, N: 1 << 20, Elem: u64},
+		{Kind: KList, N: 1 << 40, Elem: &Ty{Kind: KContainer, Fields: []*Ty{u64, u64}}},
+		{Kind: KBitlist, N: 1 << 30},
+		{Kind: KList, N: 1 << 32, Elem: &Ty{Kind: KBytesN, N: 32}},
+	} {
+		for _, mode := range []string{"pkg+app", "own+app"} {
+			v := g.RandVal(lt, 3)
+			fmt.Fprintf(w, "conc %d %d %s %s %s\n", 4+g.Intn(12), g.U64()%1000000, mode, lt, v)
+		}
+	}
 	n := tierN(tier, 60, 1500)
 	for i := 0; i < n; i++ {
 		t := g.histType(1 + g.Intn(3))
